@@ -63,6 +63,9 @@ func probeEnc(a encArg) (string, string) {
 	for _, pre := range []date.Date{{}, date.New(1999, 12, 31)} {
 		u := pre
 		if err := u.UnmarshalBinary(append([]byte(nil), b...)); err != nil {
+			if a.Y > 999999999 || a.Y < -999999999 { // the statement promises the round trip within +-999,999,999 years only
+				continue // (what an error may leave in the receiver is judged by the decode probe)
+			}
 			return "roundtrip_rejected", fmt.Sprintf("UnmarshalBinary(%x) failed: %v", b, err)
 		}
 		if u != d || !u.Equal(d) {
